@@ -50,22 +50,22 @@ type TLCOpts struct {
 	ExtraArg []string
 	Deadlock bool // check deadlock (default off)
 	MaxSet   int
-	DFS      bool // StateDeque queue (depth first)
+	DFS      bool              // StateDeque queue (depth first)
 	OnLine   func(line string) // called for every stdout line
 }
 
 // TLCResult is what we parse from TLC's output.
 type TLCResult struct {
-	Generated   int64
-	Distinct    int64
-	Depth       int
-	OK          bool // "Model checking completed. No error has been found."
-	Violated    string
-	Prints      []string // unescaped strings printed by PrintT("...")
-	Output      string   // tail of output
+	Generated    int64
+	Distinct     int64
+	Depth        int
+	OK           bool // "Model checking completed. No error has been found."
+	Violated     string
+	Prints       []string // unescaped strings printed by PrintT("...")
+	Output       string   // tail of output
 	CoverageZero []string
-	Wall        time.Duration
-	Cmd         string
+	Wall         time.Duration
+	Cmd          string
 }
 
 var reStates = regexp.MustCompile(`^(\d+) states generated, (\d+) distinct states found`)
